@@ -29,7 +29,7 @@ package multi
 //@   requires m != nil && forall(i, 0, len(m.loaders), m.loaders[i] != nil)
 //@   modifies m.loaders
 //@   nopanic
-//@   ensures [added-loaders-go-last] len(m.loaders) == old(len(m.loaders)) + len(loaders) && forall(i, 0, old(len(m.loaders)), m.loaders[i] == old(m.loaders[i])) && forall(j, 0, len(loaders), m.loaders[old(len(m.loaders)) + j] == loaders[j])
+//@   ensures [added-loaders-go-last] len(m.loaders) == old(len(m.loaders)) + len(loaders) && forall(i, 0, old(len(m.loaders)), m.loaders[i] == old(m.loaders[i])) && forall(j, 0, len(loaders), m.loaders[old(len(m.loaders)) + j] == old(loaders[j]))
 
 //@ func multi.NewLoader
 //@   props C19
